@@ -21,10 +21,24 @@ import (
 // signs (a few calls are slow).  Nothing about the interleaving is controlled; what must hold for
 // EVERY interleaving is checked (these are the observables of the Lean invariants):
 //
+// Variants by seed: odd seeds let every 5th CA call fail (failing CA concurrent with timers and bundle
+// updates); every 4th pushed task is run synchronously INSIDE PushDelayed (a zero-delay task on a fast
+// queue); the CA alternates between two roots, so roots change under concurrency.
+//
 //	panic           no goroutine panics
 //	pair-mismatch   every returned private key matches the leaf returned with it (pair_consistent)
 //	root-not-ca     every returned / cached root is a CA certificate, ROOTCA answers are non-empty
-//	single-flight   successful CA calls <= cache clears + 1 (single_flight_calls: one per epoch)
+//	finished-task-still-cached  a monitor samples (tasks that have returned, then the cache): a certificate whose
+//	                own task has already returned is never cached (the task either cleared it or found it
+//	                gone for good) - fails when a task runs before its certificate is stored
+//	root-announce-count  `ROOTCA` callbacks = root changes in the sequence of successful CA responses + bundle
+//	                updates (the comparison runs under generateMutex in CA-call order: exact)
+//	rootca-content  every ROOTCA answer consists of CA roots the CA ever used plus anchors ever configured, and
+//	                contains at least one CA root; the final answer contains the cached certificate's root and
+//	                the configured anchors
+//	single-flight-weak   successful CA calls <= `default` callbacks + 1.  Slack (a bundle update on an empty cache
+//	                also calls back): a sanity bound only - what discriminates a second signing request without a
+//	                clear in between is queue-stores (registerSecret skips the second store and pushes nothing)
 //	queue-stores    at the end: queue length = successful CA calls (every response is stored and
 //	                scheduled exactly once: register_never_skips, one_entry_per_store)
 //	no-pending-task at the end: the cached certificate's own task has not been run
@@ -45,10 +59,16 @@ func runStress(t []string) string {
 	}
 	s := newSUT(0.5, 0, false)
 	defer s.close()
+	seed, _ := strconv.Atoi(t[3])
+	failing := seed%2 == 1
 	s.ca.delay = 200 * time.Microsecond
 	s.ca.script = func(i int) caOutcome {
-		return caOutcome{kind: "ok", ttl: time.Hour, signer: byte('A' + i%2), bundle: "-"}
+		if failing && i%5 == 2 {
+			return caOutcome{kind: "signerr", signer: 'A', bundle: "-"}
+		}
+		return caOutcome{kind: "ok", ttl: time.Hour, signer: byte('A' + (i/3)%2), bundle: "-"}
 	}
+	s.q.syncRun = func(idx int) bool { return idx%4 == 1 }
 	var violation atomic.Value
 	fail := func(v string) { violation.CompareAndSwap(nil, v) }
 	stop := make(chan struct{})
@@ -65,12 +85,16 @@ func runStress(t []string) string {
 			f()
 		}()
 	}
-	var clears int64 // SetWorkload(nil) executions = `default` callbacks
+	var clears, rootEvents int64 // `default` callbacks, `ROOTCA` callbacks
 	s.sc.RegisterSecretHandler(func(name string) {
-		if name == security.WorkloadKeyCertResourceName {
+		switch name {
+		case security.WorkloadKeyCertResourceName:
 			atomic.AddInt64(&clears, 1)
+		case security.RootCertReqResourceName:
+			atomic.AddInt64(&rootEvents, 1)
 		}
 	})
+	var bundleCalls int64
 	for g := 0; g < n; g++ {
 		g := g
 		guard("gen", func() {
@@ -85,6 +109,9 @@ func runStress(t []string) string {
 					name = security.RootCertReqResourceName
 				}
 				it, err := s.sc.GenerateSecret(name)
+				if err != nil && failing {
+					continue // a failed signing attempt is reported to the caller, the next call tries again
+				}
 				if err != nil || it == nil {
 					fail("gen-error " + fmt.Sprint(err))
 					return
@@ -98,8 +125,11 @@ func runStress(t []string) string {
 				if name == security.WorkloadKeyCertResourceName && (it.PrivateKey == nil || it.CertificateChain == nil) {
 					fail("no-pair")
 				}
-				if name == security.RootCertReqResourceName && (len(it.RootCert) == 0 || rootLetters(it.RootCert) == "-") {
-					fail("root-empty")
+				if name == security.RootCertReqResourceName {
+					l := rootLetters(it.RootCert)
+					if len(it.RootCert) == 0 || l == "-" || !strings.ContainsAny(l, "AB") || strings.Trim(l, "ABCD") != "" {
+						fail("rootca-content " + l)
+					}
 				}
 				if nonCARoot(it.RootCert) {
 					fail("root-not-ca")
@@ -117,14 +147,19 @@ func runStress(t []string) string {
 			}
 			s.q.mu.Lock()
 			var e *qEntry
-			if next < len(s.q.entries) {
-				e = s.q.entries[next]
-				e.fired = true
+			for next < len(s.q.entries) && e == nil {
+				if !s.q.entries[next].fired { // not one of those run inside PushDelayed
+					e = s.q.entries[next]
+					e.fired = true
+				}
 				next++
 			}
 			s.q.mu.Unlock()
 			if e != nil {
 				_ = e.task()
+				s.q.mu.Lock()
+				e.done = true
+				s.q.mu.Unlock()
 			}
 			time.Sleep(time.Duration(100+(next%5)*150) * time.Microsecond)
 		}
@@ -138,7 +173,33 @@ func runStress(t []string) string {
 			}
 			b := []byte(strings.Join(bundlePEMs([]string{"C", "D", "CD"}[k%3]), ""))
 			_ = s.sc.UpdateConfigTrustBundle(b)
+			atomic.AddInt64(&bundleCalls, 1)
 			time.Sleep(time.Duration(150+(k%4)*200) * time.Microsecond)
+		}
+	})
+	guard("monitor", func() {
+		for {
+			select {
+			case <-stop:
+				return
+			default:
+			}
+			// first the tasks that have returned, then the cache: a certificate cached NOW whose task had
+			// ALREADY returned was never going to be renewed
+			s.q.mu.Lock()
+			done := make([]bool, len(s.q.entries))
+			for i, e := range s.q.entries {
+				done[i] = e.done
+			}
+			s.q.mu.Unlock()
+			if w := nacache.VerifCachedWorkload(s.sc); w != nil {
+				// the k-th successful CA response owns the k-th task
+				if k := s.okIndex(certID(w.CertificateChain)); k >= 0 && k < len(done) && done[k] {
+					fail(fmt.Sprintf("finished-task-still-cached task=%d", k))
+					return
+				}
+			}
+			time.Sleep(20 * time.Microsecond)
 		}
 	})
 	time.Sleep(time.Duration(ms) * time.Millisecond)
@@ -148,17 +209,33 @@ func runStress(t []string) string {
 		return "violated " + v.(string)
 	}
 	// quiescent end state
-	calls := s.ca.calls()
+	calls := 0 // successful CA calls
+	wantR := int(atomic.LoadInt64(&bundleCalls))
+	prevRoots := ""
+	s.ca.mu.Lock()
+	for _, r := range s.ca.recs {
+		if r.out.kind == "ok" {
+			calls++
+			if r.roots != prevRoots {
+				wantR++
+			}
+			prevRoots = r.roots
+		}
+	}
+	s.ca.mu.Unlock()
 	cl := int(atomic.LoadInt64(&clears))
 	if calls > cl+1 {
-		return fmt.Sprintf("violated single-flight calls=%d clears=%d", calls, cl)
+		return fmt.Sprintf("violated single-flight-weak calls=%d clears=%d", calls, cl)
+	}
+	if got := int(atomic.LoadInt64(&rootEvents)); got != wantR {
+		return fmt.Sprintf("violated root-announce-count got=%d want=%d", got, wantR)
 	}
 	if s.q.len() != calls {
 		return fmt.Sprintf("violated queue-stores q=%d calls=%d", s.q.len(), calls)
 	}
 	cur := -1
 	if w := nacache.VerifCachedWorkload(s.sc); w != nil {
-		cur = certID(w.CertificateChain) // every CA call succeeds: the k-th call's certificate owns the k-th task
+		cur = s.okIndex(certID(w.CertificateChain)) // the k-th successful call's certificate owns the k-th task
 		if cur < 0 || cur >= s.q.len() || s.q.entries[cur].fired {
 			return fmt.Sprintf("violated no-pending-task cached=%d q=%d", cur, s.q.len())
 		}
@@ -177,6 +254,17 @@ func runStress(t []string) string {
 	if (nacache.VerifCachedWorkload(s.sc) == nil) != (cur < 0 || ranOwn) {
 		return "violated stale-cleared"
 	}
+	// final ROOTCA answer: root of the cached certificate's response + configured anchors
+	s.ca.script = func(int) caOutcome { return caOutcome{kind: "ok", ttl: time.Hour, signer: 'A', bundle: "-"} }
+	if it, err := s.sc.GenerateSecret(security.RootCertReqResourceName); err != nil {
+		return "violated gen-error final"
+	} else if w := nacache.VerifCachedWorkload(s.sc); w != nil {
+		got := rootLetters(it.RootCert)
+		want := lettersOrDash(w.RootCert) + lettersOrDash(nacache.VerifConfigTrustBundle(s.sc))
+		if !containsAll(got, strings.ReplaceAll(want, "-", "")) {
+			return "violated rootca-content final " + got + " lacks " + want
+		}
+	}
 	if calls == 0 || cl == 0 {
 		return fmt.Sprintf("inert calls=%d clears=%d", calls, cl)
 	}
@@ -184,6 +272,22 @@ func runStress(t []string) string {
 		fmt.Fprintf(os.Stderr, "stress: calls=%d clears=%d q=%d\n", calls, cl, s.q.len())
 	}
 	return "ok calls>0 clears>0"
+}
+
+// okIndex maps a CA call index (certificate serial - 1) to its rank among the successful calls.
+func (s *sut) okIndex(call int) int {
+	s.ca.mu.Lock()
+	defer s.ca.mu.Unlock()
+	if call < 0 || call >= len(s.ca.recs) || s.ca.recs[call].out.kind != "ok" {
+		return -1
+	}
+	k := 0
+	for i := 0; i < call; i++ {
+		if s.ca.recs[i].out.kind == "ok" {
+			k++
+		}
+	}
+	return k
 }
 
 func oracleStress(t []string) string {
